@@ -174,6 +174,7 @@ class Interp:
         self.eids: dict = {}
         self.eid_info: dict[int, str] = {}
         self.loop_eids: set = set()  # identities that stand for iterations of for-loops / comprehensions
+        self.loop_srcs: dict = {}  # iteration identity -> provenance tags of the elements iterated over
         self.closures: list[dict] = []
         self.stack: list[str] = []
         self.guards: list[list] = []  # data-dependent conditions guarding the calls on the stack
@@ -1166,6 +1167,7 @@ class Interp:
                 itv = self.ev(s.iter, head, fr)
                 iter_calls = self.ncalls != c0
             elem = self.elems(itv)
+            self.loop_srcs.setdefault(e, set()).update(x for sc in self.scalars(elem) for x in sc.srcs)
             # one pass per alternative shape of the element keeps the provenance of different sources apart
             alts = [V(sh) for sh in elem] if 0 < len(elem) <= 64 else [elem]
             out = None
@@ -1695,6 +1697,7 @@ class Interp:
             eid = self.eid((id(e), gi, fr.inv), f"{fr.fi.relpath}:{e.lineno}")
             self.loop_eids.add(eid)
             elem = self.elems(itv)
+            self.loop_srcs.setdefault(eid, set()).update(x for sc in self.scalars(elem) for x in sc.srcs)
             alts = [V(sh) for sh in elem] if 0 < len(elem) <= 64 else [elem]
             for alt in alts:
                 cur = self.retag(alt, eid, (id(e), gi, fr.inv, "it"))
@@ -1823,6 +1826,11 @@ class Interp:
             # a table with constant keys read with a constant key (`{True: keep, False: flip}[flag]`): only that entry
             kc = next(iter(key)).value
             entries = [(k, v) for k, v in entries if type(next(iter(k)).value) is type(kc) and next(iter(k)).value == kc]
+        # keys made from distinct input objects (the first / the second architecture a matcher is applied to) never collide
+        origin = lambda val: frozenset(x for sc in self.scalars(val) for x in sc.srcs if str(x).startswith("evaluable#"))  # noqa: E731
+        ko = origin(key)
+        if ko:
+            entries = [(k, v) for k, v in entries if not origin(k) or origin(k) == ko]
         for _k, v in entries:
             if lk:
                 out |= self.map_scalars(v, lambda s: s if (lk <= s.assoc or not (s.srcs or s.roles)) else replace(s, assoc=s.assoc | lk), (id(node), fr.inv, "lk", ref.key))
@@ -2167,7 +2175,8 @@ class Interp:
             if isinstance(sh, Const) and sh.value is None:
                 return E
             if isinstance(sh, Sc) and sh.srcs:
-                self.scalar_calls.append((name, sh.srcs))
+                asrcs = frozenset(x for a in [*args, *kwargs.values()] for sc in self.scalars(a) for x in sc.srcs)
+                self.scalar_calls.append((name, sh.srcs, asrcs, self.where(fr, call)))
             if name == "join" and args:
                 el = self.text_of(self.elems(args[0]), call, fr)
                 return self.derive([V(sh) if isinstance(sh, Sc) else E, el], fr, call, check=False, agg=True)
@@ -2455,6 +2464,7 @@ class Interp:
             e = self.eid((id(call), "map", fr.inv), site)
             self.loop_eids.add(e)
             first = self.elems(args[1])
+            self.loop_srcs.setdefault(e, set()).update(x for sc in self.scalars(first) for x in sc.srcs)
             alts = [V(sh) for sh in first] if 0 < len(first) <= 64 else [first]
             self.active.append(e)
             try:
